@@ -205,10 +205,11 @@ CHECKS = {
              'wherever FIRST(Y) of a production symbol is read as its contribution, nullable(Y) of the same Y is tested; and the '
              'min/max cost accumulators keep the lower/higher candidate; the round loops of the cost functions have termination '
              'evidence (exit on an unchanged round, or cyclic rules finalised beforehand); a maximum is final only when no '
-             'production of the rule is incomplete.',
+             'production of the rule is incomplete; the minimal-sentence generator stops scanning a production once it has '
+             'deferred to a rule (else the rest is emitted twice and out of order).',
         note='A necessary condition for exactness and termination-at-the-fixed-point. That the transfer functions are right beyond the '
              'FIRST/nullable pairing is NOT decided (the pairing rule found a real FOLLOW defect, fixed in /repo 2a78056); '
-             'nor are reachability and minimal sentences; 1 known finding (rule_min_costs can hang / overflow on unit cycles and '
+             'nor is reachability; of minimal sentences only the defer-then-stop discipline (it found the defect fixed in /repo 4c9dae6); 1 known finding (rule_min_costs can hang / overflow on unit cycles and '
              'unproductive recursion). Trusted: ' + TB,
         technique='structural recognition of fixed-point loops in MIR + monotone-flag and noticed-mutation checks (reachability avoiding flag-raising blocks)',
         ref='§4 C17, §10.6'),
@@ -237,7 +238,8 @@ CHECKS = {
              'holder of &mut newlines only grows it). Plus the CR LF clause of column counting: the character loop, read as a '
              'finite transducer (state = loop-carried small-domain locals, input = CR/LF/other), is bisimilar to "count every '
              'character except an LF right after a CR". No byte offset reaching Span::new or a slice bound is formed as '
-             'str::lines()-item length + 1 (lines() strips CR LF too).',
+             'str::lines()-item length + 1 (lines() strips CR LF too). Every library construction of a lexer hands over a line table '
+             'built from exactly the lexer\'s text: NewlineCache::from_str(text), or pieces that provably tile it (ghost-cursor argument).',
         note='A necessary condition of "the lines-of-span query never panics, including spans that end at a line start or at '
              'the end of the text"; it found the out-of-bounds read fixed in /repo 707b1f1. NOT decided: that line '
              'numbers and returned byte ranges are the right ones, the str slicing done with them in lrlex/lrpar, '
